@@ -29,6 +29,7 @@ func runC11(c *Ctx) {
 	c11NewRoot(c, "C11.5")
 	c11MarkDirty(c, "C11.6")
 	c11ParentUpdate(c, "C11.7")
+	c01RootRelocation(c, "C11.8")
 	// advisory: direct indexing
 	for _, name := range []string{"storage.(*btreeNode).updateCell", "storage.(*btreeNode).split", "storage.WALBatch.replay"} {
 		f := c.W.F(name)
